@@ -233,10 +233,12 @@ def tv_once(module, trace, decoded, wd, extra_env=None, timeout=1800, overrides=
         m = re.match(r'^<<"TV_REJECT", (\d+)>>', line)
         if m:
             rej = int(m.group(1))
-    if r.violated and rej is None:
-        # an invariant of the spec failed on a state reached by the trace
-        m = re.search(r"/\\ l = (\d+)", r.out[r.out.rfind("State "):] if "State " in r.out else "")
-        return ("invariant", r.violated, int(m.group(1)) - 1 if m else 0, r)
+    if r.violated:
+        # an invariant / action property of the spec failed on a state reached by the trace: the
+        # offending event is the last one consumed (its 1-based index = value of l in that state - 1)
+        ls = re.findall(r"/\\ l = (\d+)", r.out)
+        idx = (int(ls[-1]) - 1) if ls else (rej - 1 if rej else 1)
+        return ("invariant", r.violated, max(1, idx), r)
     if rej is not None:
         return ("reject", None, rej, r)
     if r.rc != 0:
